@@ -30,4 +30,12 @@ def main():
 
 
 if __name__ == "__main__":
-    main()
+    try:
+        main()
+    except SystemExit:
+        raise
+    except BaseException:
+        # a crash of the machinery is never a verdict: exit 2 (inconclusive), not 1
+        import traceback
+        traceback.print_exc()
+        sys.exit(common.EXIT_INCONCLUSIVE)
